@@ -34,7 +34,7 @@ def replay_table(inputs, obl):
         problems.append(f"raised {type(e).__name__}: {e}")
     if problems:
         return dict(confirmed=True, detail='; '.join(problems[:3]))
-    return dict(confirmed=False, detail='table contents agree with the row model')
+    return replay_histories(inputs, obl)
 
 
 def replay_indexed_commit(inputs, obl):
@@ -150,3 +150,89 @@ def replay_db_view(inputs, obl):
     if problems:
         return dict(confirmed=True, detail='; '.join(problems[:3]) + (f" (+{len(problems) - 3} more)" if len(problems) > 3 else ''))
     return dict(confirmed=False, detail='every query saw exactly the rows inserted so far (40 histories + index history)')
+
+
+def replay_histories(inputs, obl, maxlen=3):
+    """every operation sequence up to length `maxlen` (insert a new key, re-insert an existing key, insert a batch with a repeated key,
+    read a column, count, index on a, drop the index, query through .db) on a real table, each followed by ONE read that is compared
+    with a list-of-rows model: unindexed = insertion order; indexed = one row per key (the last inserted), in key order"""
+    import itertools
+    import numpy as np
+    from klongpy import KlongInterpreter
+    OPS = ('new', 'old', 'batch', 'col', 'count', 'index', 'rindex', 'db')
+
+    def run(seq):
+        k = KlongInterpreter()
+        k('.py("klongpy.db")')
+        k('T::.table([["a" [1 2 3]] ["b" [10 20 30]]])')
+        k('db::.db(:{},"T",,T)')
+        rows, indexed, nk, nb = [[1, 10], [2, 20], [3, 30]], False, [100], [1000]
+
+        def put(r):
+            if indexed:
+                for i, x in enumerate(rows):
+                    if x[0] == r[0]:
+                        rows[i] = r
+                        return
+                rows.append(r)
+                rows.sort(key=lambda x: x[0])
+            else:
+                rows.append(r)
+        trace = []
+        for op in seq:
+            trace.append(op)
+            if op == 'new':
+                nk[0] += 1; nb[0] += 1
+                k(f'.insert(T;[{nk[0]} {nb[0]}])'); put([nk[0], nb[0]])
+            elif op == 'old':
+                nb[0] += 1
+                k(f'.insert(T;[2 {nb[0]}])'); put([2, nb[0]])
+            elif op == 'batch':
+                nk[0] += 1; b1, b2, b3 = nb[0] + 1, nb[0] + 2, nb[0] + 3; nb[0] += 3
+                k(f'.insert(T;[[{nk[0]} {b1}] [2 {b2}] [{nk[0]} {b3}]])')
+                for r in ([nk[0], b1], [2, b2], [nk[0], b3]):
+                    put(r)
+            elif op == 'index':
+                if indexed or len({r[0] for r in rows}) != len(rows):
+                    return None            # the property speaks of indexes on columns whose values are unique
+                k('.index(T;["a"])'); indexed = True; rows.sort(key=lambda x: x[0])
+            elif op == 'rindex':
+                k('.rindex(T)'); indexed = False
+            if op == 'count':
+                got = int(k('#T'))
+                if got != len(rows):
+                    return f"{'; '.join(trace)}: #T = {got}, the table holds {len(rows)} rows"
+            elif op == 'db':
+                r = np.asarray(k('db("select a,b from T")'))
+                got = sorted(r.reshape(-1, 2).tolist()) if r.size else []
+                if got != sorted(rows):
+                    return f"{'; '.join(trace)}: the SQL sees {got}, the table holds {sorted(rows)}"
+            elif op == 'col':
+                a, b = [int(x) for x in k('T?"a"')], [int(x) for x in k('T?"b"')]
+                if [list(x) for x in zip(a, b)] != rows:
+                    return f"{'; '.join(trace)}: T?a,T?b = {list(zip(a, b))}, expected {rows}"
+        # closing reads: count first (no other read has flushed the buffer), then the columns
+        got = int(k('#T'))
+        if got != len(rows):
+            return f"{'; '.join(trace)}; #T = {got}, the table holds {len(rows)} rows"
+        a, b = [int(x) for x in k('T?"a"')], [int(x) for x in k('T?"b"')]
+        if [list(x) for x in zip(a, b)] != rows:
+            return f"{'; '.join(trace)}; T?a,T?b = {list(zip(a, b))}, expected {rows}"
+        return None
+    problems, n = [], 0
+    for L in range(1, maxlen + 1):
+        for seq in itertools.product(OPS, repeat=L):
+            n += 1
+            try:
+                p = run(seq)
+            except Exception as e:
+                p = f"{'; '.join(seq)}: raised {type(e).__name__}: {e}"
+            if p:
+                problems.append(p)
+                if len(problems) >= 3:
+                    break
+        if problems:
+            break
+    if problems:
+        return dict(confirmed=True, detail=' | '.join(problems))
+    return dict(confirmed=False, detail=f"{n} operation sequences up to length {maxlen} agree with the row model")
